@@ -272,6 +272,18 @@ def check_c04(tier, seed):
 
 def check_c10(tier, seed):
     def guards(res, reports):
+        # the harness deserializes into an owned value from a short-lived buffer (`T: DeserializeOwned`, which serde gives every
+        # newtype whose inner type is owned or `Cow`): a declaration that builds on its own but whose impl is tied to the input
+        # lifetime cannot round-trip at all
+        for did, q in list(res.quarantined.items()):
+            for e in q["errors"]:
+                msg = e.get("message", "") + e.get("rendered", "")
+                if "implementation of `Deserialize` is not general enough" in msg or ("DeserializeOwned" in msg and "is not satisfied" in msg):
+                    v = {"decl": did, "signature": "deserialize-impl-not-usable-for-owned-values(compile)", "input": "<compile>", "observed": e.get("message", "")[:200],
+                         "expected": "T: for<'de> Deserialize<'de> as for a serde-derived newtype over the same inner type", "detail": q["decl"], "count": 1}
+                    v["replay"] = write_witness(res, v, None, q["decl"], kind="compile")
+                    res.violations.append(v)
+                    break
         tot = {}
         for r in reports:
             for k, v in r["guards"].items():
@@ -675,6 +687,44 @@ def check_c02(tier, seed):
     res.guard("classes_with_rejected_declarations", sum(1 for c in classes.values() if c["rejected"]), 3)
     res.samples = [{"class": cls_of[d.id], "declaration": d.decl_text(), "macro_verdict": "rejected" if d.id in rejected else "accepted", "denoted": str([v.denoted for v in d.vals])}
                    for d in decls[::max(1, len(decls) // 10)]][:10]
+    # ---- declarations that cannot be honoured (a literal pattern that is not a regular expression): refused in every feature configuration that offers `regex`,
+    #      each next to a twin that differs only in being a valid pattern
+    bad = [('"("', '"(a)"'), ('"[a-"', '"[a-z]"'), ('r"\\p{NoSuchClass}"', 'r"\\p{Greek}"'), ('"a{2,1}"', '"a{1,2}"'), ('"(?P<n>"', '"(?P<n>a)"'), ('"*a"', '"a*"'), ('r"\\"', 'r"\\\\"'),
+           ('"(?z)a"', '"(?i)a"'), ('"a)"', '"(a)"')]
+    unfaithful = []
+    for gi, (gname, feats, dflt) in enumerate((("all", cratebuild.ALL_FEATURES, True), ("regex-only", ["std", "regex"], True), ("nodefault", ["regex", "serde"], False), ("nodefault-regex-only", ["regex"], False))):
+        cases = []
+        for i, (b_txt, g_txt) in enumerate(bad):
+            for j, extra in enumerate(("", "sanitize(trim), ", "validate(not_empty), ")):
+                pre, inside = (extra, "") if extra.startswith("sanitize") else ("", extra[len("validate("):-3] + ", " if extra else "")
+                body = "use nutype::nutype;\n#[nutype(%svalidate(%sregex = %s), derive(Debug))]\npub struct T(String);\n"
+                n = len(cases) // 2
+                ca = verdict.Case("u%d%03d" % (gi, n), body % (pre, inside, b_txt), "MUST_REJECT", "unfaithful:invalid-regex-literal:%s" % gname, note=b_txt, group=gname)
+                cc = verdict.Case("v%d%03d" % (gi, n), body % (pre, inside, g_txt), "MUST_ACCEPT", "control:valid-regex-literal:%s" % gname, control_of=ca.id, note=g_txt, group=gname)
+                cases += [ca, cc]
+        vc = verdict.VerdictCrate("c02v-%s-%s" % (gname, tier), feats, extra_deps='regex = "1"\nserde = { version = "1.0.150", features = ["derive"] }\n', default_features=dflt, nshards=4)
+        try:
+            vout, vinfo = verdict.run_verdicts(vc, cases, log=log)
+        except Inconclusive as e:
+            res.inconclusive.append(str(e))
+            continue
+        okc = 0
+        for c in cases:
+            if c.expect != "MUST_REJECT":
+                continue
+            oa, oc = vout[c.id], vout["v" + c.id[1:]]
+            res.evaluations += 2
+            if oc["verdict"] != "accepted":
+                res.inconclusive.append("control %s (%s, %s) does not compile: %s" % (c.id, gname, c.note, json.dumps(oc["errors"])[:300]))
+                continue
+            if oa["verdict"] == "accepted":
+                c.group = gname
+                res.violations.append(verdict_witness(res, c, "accepted (compiles cleanly)", "unfaithful-declaration-accepted:invalid-regex-literal:" + gname))
+            okc += 1
+        unfaithful.append((gname, okc))
+        res.classes.add("unfaithful:invalid-regex-literal:%s|rejected" % gname)
+    res.extra.setdefault("coverage_extra", {})["unfaithful_declarations_judged_with_compiling_twin"] = dict(unfaithful)
+    res.guard("unfaithful_declarations_judged", sum(k for _, k in unfaithful), 60)
     res.assumptions += ASSUME_COMMON + ["expression semantics: Rust integer / IEEE float arithmetic as modelled in the generator for the listed forms"]
     return finish(res)
 
